@@ -1784,7 +1784,15 @@ func isValidLiteralValue(ttype Input, valueAST ast.Value) (bool, []string) {
 			}
 		}
 		// Ensure every defined field is valid.
-		for fieldName, field := range fields {
+		// in name order, so that the message lists the problems in the same
+		// order every time
+		fieldNames := make([]string, 0, len(fields))
+		for fieldName := range fields {
+			fieldNames = append(fieldNames, fieldName)
+		}
+		sort.Strings(fieldNames)
+		for _, fieldName := range fieldNames {
+			field := fields[fieldName]
 			var fieldASTValue ast.Value
 			if fieldAST := fieldASTMap[fieldName]; fieldAST != nil {
 				fieldASTValue = fieldAST.Value
